@@ -15,7 +15,7 @@ if [ -n "$(git -C /repo status --porcelain)" ]; then
 fi
 ev="$here/evidence/$pid.json"; [ -f "$ev" ] && cp "$ev" "$here/work/seedrun/$pid.evidence.keep"
 git -C /repo apply "$patch" || { echo "patch does not apply"; exit 3; }
-trap 'git -C /repo checkout -- . ; git -C /repo clean -fdq -- replay_unpack; [ -f "$here/work/seedrun/$pid.evidence.keep" ] && mv "$here/work/seedrun/$pid.evidence.keep" "$ev"' EXIT
+trap 'git -C /repo checkout -- . ; git -C /repo clean -fdq -- replay_unpack MANIFEST.in setup.cfg pyproject.toml; [ -f "$here/work/seedrun/$pid.evidence.keep" ] && mv "$here/work/seedrun/$pid.evidence.keep" "$ev"' EXIT
 ( cd "$here" && ./check "$pid" --tier quick "$@" ) > "$log" 2>&1
 rc=$?
 echo "== $name via $pid: exit $rc"
